@@ -21,6 +21,8 @@ Eval(e) ==
          ELSE [cl |-> [NoUnexpectedError |-> TRUE, SolveWellFormed |-> TRUE, SolutionIsInterpolant |-> SolutionIsInterpolant(e)],
                info |-> {"Info_problem_" \o e.problem, "Info_bc_" \o e.bc, "Info_dirichlet_form_" \o e.dform,
                          "Info_method_" \o e.method}
+                        \cup (IF e.nth >= 2 THEN {"Info_LaterSolveOnTheSameAssembledSystem"} ELSE {})
+                        \cup (IF e.S2 > 0 THEN {"Info_StronglyGradedMesh"} ELSE {})
                         \cup (IF \E k \in DOMAIN e.poly : PolyDeg(e.poly[k]) >= 2 THEN {"Info_DegreeAtLeast2"} ELSE {})]
     [] e.a = "Project" ->
          IF e.err # "" THEN [cl |-> [NoUnexpectedError |-> FALSE], info |-> {}]
@@ -29,7 +31,8 @@ Eval(e) ==
                        ProjectionIsIdentity |-> ProjectionIsIdentity(e)]
                       @@ (IF e.region = "cells"
                           THEN [RegionIsDofsOfCells |-> VSet(e.I) = RegionOfCells(e.edofs, e.cells)] ELSE <<>>),
-               info |-> {"Info_project_" \o e.region} \cup (IF e.curved = 1 THEN {"Info_CurvedMesh"} ELSE {})]
+               info |-> {"Info_project_" \o e.region} \cup (IF e.curved = 1 THEN {"Info_CurvedMesh"} ELSE {})
+                        \cup (IF e.graded = 1 THEN {"Info_StronglyGradedMesh"} ELSE {})]
     [] OTHER -> [cl |-> [KnownEvent |-> FALSE], info |-> {}]
 
 Bump(c, names) == [k \in DOMAIN c \cup names |->
